@@ -93,7 +93,9 @@ FAULT_UPLOAD = Suite(
          "lines only, scratch copy) to the shims vos / vhttp / vrand in PLAN mode: every call ReadDir, ReadFile, Stat, "
          "OpenFile, File.Write, File.Close, WriteFile, Remove, MkdirAll, Post and the entropy read has an index in "
          "program order and the plan maps index -> ok | ENOENT | EACCES | ENOSPC | EIO | short write (first half of the "
-         "bytes) | for Post: transport error / 5xx / 4xx. The directory states include locks of dead uploaders whose "
+         "bytes) | for Post: transport error / 5xx / 4xx. Every third directory state is built for the lock of a dead uploader: one week to "
+         "report and upload, mode on, and upload/<week>.json.lock already there - 30 min, 90 min, 2 h, 25 h or 3 days old, "
+         "an empty file or (every other time) a non-empty DIRECTORY under the lock's name that no Remove takes away. The directory states also include locks of dead uploaders whose "
          "mtime is hours or days old (file ages are part of the state) and count files with a valid header whose hash "
          "chains leave the file (grown beyond the first page and truncated; dangling link). Plans: none; every single call index of the fault-free run x "
          "kind (all five error kinds on the first two directory states, EIO and short write on the others; 4xx / 5xx at "
